@@ -30,8 +30,9 @@ def check(world, tier):
     g = S.g
     tf = S.transfer_frame()
     lps = S.transfer_loops()
-    fi_el = prog.field_index(WINDOW, "elements")
-    fi_sz = prog.field_index(WINDOW, "size")
+    wl = world.window_layout()
+    fi_el = wl.get("elements")
+    fi_sz = wl.get("size")
     # ---------------------------------------------------------- a
     wr = window_roots(S)
     a.need(len(wr), 1, "Window created in the send region")
@@ -42,8 +43,8 @@ def check(world, tier):
             if hs is None:
                 a.ob(False, "no-loop-head-state", "no invariant recorded for the send loop")
                 continue
-            ln = eng.read(hs, root, path + (fi_el, "$len"))
-            sz = eng.read(hs, root, path + (fi_sz,))
+            ln = eng.read(hs, root, tuple(path) + tuple(fi_el) + ("$len",))
+            sz = eng.read(hs, root, tuple(path) + tuple(fi_sz))
             ok = ln[0] == "i" and sz[0] == "i" and hs.ctx.entails(lin.le(ln[1], sz[1]))
             a.ob(ok, "len<=size at loop %s" % lp[1], "len(window) <= size is not an invariant of the sender's loop",
                  sample={"loop head": lp[1], "entails": "len(elements) <= size"})
@@ -56,7 +57,7 @@ def check(world, tier):
         its = [e for e in S.events if base_name(e).startswith("<&'a std::collections::VecDeque<T, A> as std::iter::IntoIterator>::into_iter")
                or base_name(e) == "std::collections::VecDeque::iter"]
         over_queue = [e for e in its if e.args and isinstance(e.args[0], tuple) and e.args[0][0] == "r" and e.args[0][1] == root and
-                      tuple(e.args[0][2][:len(path) + 1]) == tuple(path) + (fi_el,)]
+                      tuple(e.args[0][2][:len(path) + len(fi_el)]) == tuple(path) + tuple(fi_el)]
         a.need(len(over_queue), 1, "iteration over the window queue (burst)")
     # ---------------------------------------------------------- c
     if lps:
@@ -96,7 +97,7 @@ def check(world, tier):
                  sample={"ACK edge": node_str(prog, e[0]), "rejected-ACK path nodes": len(r_inner), "effects": bad})
     # ---------------------------------------------------------- d
     obs = [o for o in S.transfer_obligations() if o.kind in ("assert", "range", "index", "unwrap")]
-    d.need(len(obs), 3, "obligations of the acceptance path (distance + 1, remove, counters)")
+    d.need(len(obs), 2, "obligations of the acceptance path (distance + 1, remove, counters)")
     for o in obs:
         d.ob(o.proven, ob_key(o), "acceptance guard too weak: %s cannot be shown (%s); e.g. a duplicate ACK with windowsize 65535 or a stale ACK on a short final window"
              % (o.detail, o.residual), o.loc, sample={"obligation": o.kind + " " + o.detail, "at": o.loc, "proven": o.proven})
